@@ -33,6 +33,11 @@ CHECKS = {
    text="Every pair from a boundary operand set (2^31..2^64, 10^k around 16/34/40/77 digits, repdigits, long fractions, int and float spellings) under every arithmetic/comparison operator and div/mod/quo/rem is evaluated by the real evaluator and compared with exact big.Rat arithmetic (nearest-34-digit rule for inexact float results and /); every literal spelling up to the bound that the spec grammar allows must evaluate to the spec value and kind, and printed results must read back as the same number.",
    note="Trusts math/big and src/model/numbers.go. 34 significant digits is taken as the documented precision; ties may round either way. Known literal-grammar deviations are listed in known_findings.jsonl.",
    ref="DESIGN.md §3 C06"),
+ "C07": dict(engine="enum",
+   technique="bounded-exhaustive enumeration of evaluable programs x option profiles x paths; printed text re-compiled in a fresh context and compared by canonical semantic dump (no exporter in the oracle)",
+   text="Every program of the declaration-pool grammar (plus export-specific declarations) that evaluates without error is printed with Value.Syntax under 7 option profiles (All, All+Docs, Final, Concrete, the cue eval / eval -a / export --out cue sets) at the root and at every top-level field, formatted, compiled stand-alone in a fresh context and compared with the original through a profile-specific projection of canon.",
+   note="Trusts package canon and its per-profile projections. Five known exporter findings are listed in known_findings.jsonl (dangling references for sub-values, a mis-hoisted let, close() nesting, a reference cycle).",
+   ref="DESIGN.md §3 C07"),
  "C09": dict(engine="enum",
    technique="bounded-exhaustive enumeration of token strings / strings x quoting forms / literal spellings on the real scanner, parser and literal package (explicit-state, no sampling)",
    text="Every token string up to the length bound, every string over a hostile rune alphabet under every quoting form and every literal-candidate spelling up to the bound is executed on the real code and checked against position invariants, Unquote(Quote(s))==s and three-way validity agreement. Exhaustive within the stated alphabet/bound; says nothing beyond it.",
